@@ -534,6 +534,20 @@ def create_shape(value:float, shape):
         #`t` could also be numpy
         return t.full(shape,value)
 
+def _literal_state(state: Any) -> Any:
+    """Reward functions pickle as the repr of their state (compact). This only works if the repr
+    can be read back by literal_eval so anything else (e.g., Categorical, lazy rows, inf) is kept as is."""
+
+    def is_literal(x):
+        t = type(x)
+        if t is float: return x == x and x not in (float('inf'),float('-inf'))
+        if t in (int,str,bool,type(None)): return True
+        if t in (tuple,list): return all(map(is_literal,x))
+        if t is dict: return all(is_literal(k) and is_literal(v) for k,v in x.items())
+        return False
+
+    return repr(state) if is_literal(state) else state
+
 class L1Reward(Rewards):
     """A reward function using L1 distance."""
     __slots__ = ('_argmax',)
@@ -592,10 +606,10 @@ class BinaryReward(Rewards):
             o._value == self._value)
 
     def __getstate__(self):
-        return repr((self._argmax,) if self._value == 1 else (self._argmax,self._value))
+        return _literal_state((self._argmax,) if self._value == 1 else (self._argmax,self._value))
 
     def __setstate__(self,args):
-        args = literal_eval(args)
+        if isinstance(args,str): args = literal_eval(args)
         self._argmax,self._value = (args[0],1) if len(args) == 1 else args
 
     def __repr__(self) -> str:
@@ -632,10 +646,10 @@ class HammingReward(Rewards):
         return create_shape(value,shape)
 
     def __getstate__(self):
-        return repr(self._argmax)
+        return _literal_state(self._argmax)
 
     def __setstate__(self,args):
-        self._argmax = literal_eval(args)
+        self._argmax = literal_eval(args) if isinstance(args,str) else args
 
     def __repr__(self) -> str:
         am = self._argmax
@@ -703,7 +717,7 @@ class DiscreteReward(Rewards):
             o._default == self._default)
 
     def __getstate__(self):
-        return repr((self._state,self._default))
+        return _literal_state((self._state,self._default))
 
     def __setstate__(self,args):
-        self._state,self._default = literal_eval(args)
+        self._state,self._default = literal_eval(args) if isinstance(args,str) else args
